@@ -36,6 +36,36 @@ impl WatchMap {
         }
     }
 
+    /// Read-only copy of every watch list (literal, clauses in list order) for
+    /// external verification harnesses. Stops following a list after
+    /// `watches.len() + 1` nodes so that a corrupted (cyclic) list terminates.
+    #[cfg(feature = "verif-hooks")]
+    pub(crate) fn verif_lists(
+        &self,
+        watches: &[Option<WatchedLiterals>],
+    ) -> Vec<(Literal, Vec<ClauseId>)> {
+        let mut lists = Vec::new();
+        for (literal, &head) in self.map.iter() {
+            let mut list = Vec::new();
+            let mut current = Some(head);
+            while let Some(clause_id) = current {
+                list.push(clause_id);
+                if list.len() > watches.len() {
+                    break;
+                }
+                current = watches[clause_id.to_usize()].as_ref().and_then(|w| {
+                    if w.watched_literals[0] == literal {
+                        w.next_watches[0]
+                    } else {
+                        w.next_watches[1]
+                    }
+                });
+            }
+            lists.push((literal, list));
+        }
+        lists
+    }
+
     /// Returns a [`WatchMapCursor`] that can be used to navigate and manipulate
     /// the linked list of the clauses that are watching the specified
     /// literal.
